@@ -84,7 +84,8 @@ def _check_own(run):
     run.need(all(c[0] == "field0" for c in conts), "get_data does not expose the containers (see C07)")
     xf = conts[0][1]
     x, y = update_params(prog, cls)
-    arrivals = arrivals_counter(prog, cls, s, ps)
+    others = []
+    arrivals = arrivals_counter(prog, cls, s, ps, other_writers=others)
     k_init = init.fields.get("size")
     run.need(k_init is not None, "no size field")
     fq = f"{CLS}.update"
@@ -132,6 +133,30 @@ def _check_own(run):
                      f"self.{pc[0]} is not incremented on the path [{gtxt}] (acceptances then happen late)")
             return
     run.need(arrivals is not None, "no arrivals counter (field incremented exactly once at the top of every path)")
+    # ---- other methods that touch the sampler state -------------------------------------------------------
+    from .copylib import HOOKS
+    state = [arrivals, wf, cf]
+    seen_m = set()
+    for c_, mname, fn_ in others:
+        if mname in seen_m or mname in HOOKS:
+            continue
+        seen_m.add(mname)
+        try:
+            sm = prog.summarise(cls, mname)
+        except ir.Unsupported as e:
+            raise AnalysisError(f"{CLS}.{mname} writes the arrival count and is not followed: {e}")
+        written = [f for f in state if sm.fields.get(f, ("field0", f)) != ("field0", f)]
+        if len(written) < len(state):
+            missing = [f for f in state if f not in written]
+            run.fail("FORMULA", f"L.state.{mname}", f"{sm.path}:{sm.fn.lineno}", f"{CLS}.{mname}",
+                     f"{mname} assigns {written} and leaves {missing}",
+                     f"Algorithm L's state is the arrival count, the weight W and the next accepted arrival; {CLS}.{mname} assigns "
+                     f"{written} but leaves {missing} as they were: the skip target then refers to another count than the one "
+                     f"update compares it with (after a restart of the count the equality test `next == arrivals` is not met "
+                     f"again for a long time, or never)")
+        else:
+            raise AnalysisError(f"{CLS}.{mname} advances the Algorithm L state outside update(); whether it reproduces the "
+                                f"per-arrival law is not decided")
     a1 = op("+", ("field0", arrivals), ("const", 1))
     k = ("field0", "size")
     c0, w0 = ("field0", cf), ("field0", wf)
